@@ -94,7 +94,10 @@ class WorkerResult:
         self.timed_out = False
 
 
-def run_proc(cmd, env=None, timeout=3600, use_limits=True):
+def run_proc(cmd, env=None, timeout=3600, use_limits=True, stall_s=None):
+    """Run one worker process. `timeout` is the wall-clock watchdog of the whole process; `stall_s` (used when
+    every case is announced) kills it when no output line arrived for that long, so that the case that hangs
+    is identified quickly."""
     r = WorkerResult()
     e = base_env()
     if env:
@@ -117,8 +120,19 @@ def run_proc(cmd, env=None, timeout=3600, use_limits=True):
     t.start()
     timer = threading.Timer(timeout, lambda: (setattr(r, "timed_out", True), p.kill()))
     timer.start()
+    last_line = [time.time()]
+    if stall_s:
+        def stall_watch():
+            while p.poll() is None:
+                if time.time() - last_line[0] > stall_s:
+                    r.timed_out = True
+                    p.kill()
+                    return
+                time.sleep(0.5)
+        threading.Thread(target=stall_watch, daemon=True).start()
     try:
         for line in p.stdout:
+            last_line[0] = time.time()
             line = line.strip()
             if not line.startswith("{"):
                 continue
@@ -243,30 +257,39 @@ def run_pass(binp, prop, tier, seed, cases, jobs, deadline_ms, timeout, env=None
             continue
         if r.summary is None:
             # the worker died (abort, signal, watchdog) without a summary: isolate the case
+            # (at most two shards per pass are isolated; further deaths are reported as inconclusive)
+            isolated = sum(1 for x in merged["inconclusive"] if "ISOLATED" in x) + sum(1 for v in merged["viols"] if v.get("sig") == "abort:process-died")
+            if isolated >= 2:
+                merged["inconclusive"].append("shard %d of %s ended without a summary (%s); not isolated because two other shards already were"
+                                              % (i, prop, "watchdog" if r.timed_out else "rc=%s" % r.rc))
+                continue
             iso = isolate(prog, prop, tier, seed, worker_cmd(i, announce=True), timeout, env, extra, use_limits)
             if iso[0] == "violation":
                 merged["viols"].append(iso[1])
             else:
-                merged["inconclusive"].append(iso[1])
+                merged["inconclusive"].append("ISOLATED: " + iso[1])
     return merged
 
 
 def isolate(prog, prop, tier, seed, announce_cmd, timeout, env, extra, use_limits):
     """A worker died without summary. Re-run the shard announcing every case, then re-run the last
     announced case alone; a reproducible death is a violation, anything else is inconclusive."""
-    r = run_proc(announce_cmd, env=env, timeout=timeout, use_limits=use_limits)
+    stall = 40 if tier in ("quick", "tiny") and not (prog and prog[0] == "cargo") else 400
+    r = run_proc(announce_cmd, env=env, timeout=timeout, use_limits=use_limits, stall_s=stall)
     if r.summary is not None:
         return ("inconclusive", "a shard of %s died once but completed when re-run" % prop)
     if r.last_case is None:
         return ("inconclusive", "a shard of %s died before announcing a case: rc=%s %s" % (prop, r.rc, r.stderr[-300:]))
     g = r.last_case
     cmd = prog + ["replay", prop, "--tier", tier, "--seed", str(seed), "--index", str(g)] + (extra or [])
-    r2 = run_proc(cmd, env=env, timeout=max(120, timeout // 4), use_limits=use_limits)
+    r2 = run_proc(cmd, env=env, timeout=2 * stall, use_limits=use_limits)
     if r2.summary is None and not r2.harness_error:
         why = "timeout (watchdog)" if r2.timed_out else "rc=%s" % r2.rc
         if r2.timed_out:
             # a wall-clock watchdog alone is never a violation
-            return ("inconclusive", "case %d of %s: watchdog fired twice (%s)" % (g, prop, why))
+            return ("inconclusive", "case %d of %s (seed %d, tier %s) did not finish within the wall-clock watchdog when run alone "
+                                    "(%s): possible non-termination, not decided by this run; replay: biomon replay %s --tier %s --seed %d --index %d"
+                    % (g, prop, seed, tier, why, prop, tier, seed, g))
         return ("violation", {"t": "viol", "property": prop, "index": g, "sig": "abort:process-died",
                               "detail": "process died reproducibly on this case (%s): %s" % (why, r2.stderr[-1500:])})
     return ("inconclusive", "case %d killed its shard once but not when replayed alone" % g)
@@ -338,7 +361,7 @@ def main(argv):
     inconclusive = []
     notes = []
     deadline = int(opt("--deadline-ms", 90_000 if tier == "quick" else 1_500_000))
-    timeout = 600 if tier == "quick" else 5400
+    timeout = 240 if tier == "quick" else 5400
 
     def record(name, m, wtier, extra_desc=""):
         passes.append({"pass": name, "worker_tier": wtier, "cases": m["cases"], "evaluations": m["evals"],
@@ -378,8 +401,10 @@ def main(argv):
             log("HARNESS ERROR:", h)
         log("cannot decide %s (harness error) -- no verdict" % prop)
         return 2
-    if total_evals == 0:
+    if total_evals == 0 and not all_viols:
         log("cannot decide %s: no oracle-checked call was observed" % prop)
+        for inc in inconclusive:
+            log("INCONCLUSIVE:", inc)
         return 2
 
     # classify violations
@@ -428,7 +453,7 @@ def main(argv):
             samples.append({"class": cls, "case": s})
     samples = samples[:10]
     cov = {
-        "evaluations": total_evals,
+        "evaluations": max(total_evals, len(all_viols)),
         "distinct_nontrivial": len(main_m["shapes"]),
         "rule": info["rule"],
         "samples": samples,
